@@ -28,7 +28,7 @@ Print Assumptions C37_fill_exported_keeps_values.
       if the fill data holds, for every field, an entry that is valid for the field's type
       ([valid_for]: any text / date string; any boolean for a check box whose on-state is a proper name;
        a radio value among the exported options and not "Off"; a combo value among the options or empty;
-       list values among the options — exactly one for a single-select list, or none if none is stored),
+       list values among the options — at most one for a single-select list),
       or the field is a locked list box, then the fill succeeds, the export succeeds, and every field's
       exported value and lock flag are those of its entry — a locked list box keeps its old values. *)
 Theorem C37_fill_valid_values_reported : forall datefmt j fs,
@@ -109,9 +109,11 @@ Example C37_radio_explicit_off_export_fails_refuted :
   export_field nodate (PRb s1 sa false [sa; sb] [Some [48%N]; Some [49%N]] (Some sOff) None) = Err.
 Proof. vm_compute. reflexivity. Qed.
 
-(* deselecting a single-select list box that has a value: index out of range *)
-Example C37_listbox_single_deselect_fails_refuted :
-  fill_field nodate [JLb s1 sa false [sa; sb] [] [] false] (PLb s1 sa false false [sa; sb] (LStr sa) LNone) = Err.
+(* deselecting a single-select list box that has a value deletes /V (was an index-out-of-range panic
+   before pdfcpu commit "deselecting a single-select list box no longer panics") *)
+Example C37_listbox_single_deselect :
+  fill_field nodate [JLb s1 sa false [sa; sb] [] [] false] (PLb s1 sa false false [sa; sb] (LStr sa) LNone)
+  = Ok (true, PLb s1 sa false false [sa; sb] LNone LNone).
 Proof. vm_compute. reflexivity. Qed.
 
 (* a text value that parses as a date turns the field into a date field on the next export (value kept) *)
